@@ -308,8 +308,8 @@ var c19Zone = time.FixedZone("X", 3600)
 func c19Time(side string) time.Time {
 	sec := verif.Int64(side + ".sec")
 	nsec := verif.Int64(side + ".nsec")
-	// instants within +-292 years of 1970 with any nanosecond: time.Unix normalises
-	verif.Assume(verif.And(sec > -9000000000, sec < 9000000000))
+	// instants within +-2000 years of 1970 with any nanosecond (far beyond what fits int64 nanoseconds): time.Unix normalises
+	verif.Assume(verif.And(sec > -62000000000, sec < 62000000000))
 	verif.Assume(verif.And(nsec >= 0, nsec < 1000000000))
 	t := time.Unix(sec, nsec)
 	if verif.Choice(side+".monotonic", 2) == 1 {
